@@ -1,5 +1,5 @@
-"""F9 (C13): AGGREGATOR and AS4_AGGREGATOR share the JSON key "aggregator"; an attribute block holding both renders a
-duplicate key inside the attribute object.
+"""F9 (C13): AGGREGATOR and AS4_AGGREGATOR share the JSON key "aggregator"; an attribute block holding both rendered a
+duplicate key inside the attribute object (repaired by d99ab70, see F68).
 Run: /venv/bin/python findings/F09_duplicate_aggregator_key.py   (exit 1 = defect present)"""
 import sys
 sys.path.insert(0, '/repo/src')
@@ -9,7 +9,7 @@ import exabgp.bgp.message.update.attribute  # noqa
 neg = MagicMock(); neg.asn4 = False
 agg = bytes([0xC0, 0x07, 0x06]) + (23456).to_bytes(2, 'big') + bytes([10, 0, 0, 1])
 agg4 = bytes([0xC0, 0x12, 0x08]) + (70000).to_bytes(4, 'big') + bytes([10, 0, 0, 1])
-a = AttributeCollection().parse(agg + agg4, neg)
+a = AttributeCollection.unpack(agg + agg4, neg)  # the entry point of a received UPDATE (parse, then the RFC 6793 merge)
 js = a.json()
 print(js)
 sys.exit(1 if js.count('"aggregator"') > 1 else 0)
